@@ -208,7 +208,7 @@ def family(qname):
 
 def reads_stored(qname):
     """queries that read the derived variables stored in elemental_data (volume / area / metric), directly or as weights"""
-    return family(qname) is not None or qname.startswith(('convert_', 'calculate_nodal_spatial', 'calculate_elemental_spatial'))
+    return family(qname) is not None or qname.startswith(('convert_elemental2nodal', 'calculate_nodal_spatial', 'calculate_elemental_spatial'))
 
 
 def base_name(qname):
@@ -264,6 +264,10 @@ def apply_modifier(r, fd, which):
             fd.remove_useless_nodes()
         elif which == 'make_elements_positive':
             fd.make_elements_positive()
+        elif which == 'coordinate assignment':   # public setter of the node table: an affine change of all coordinates
+            fd.nodes.data = fd.nodes.data * 1.25 + np.array([0.5, -0.25, 0.125])
+        elif which == 'user variable overwrite':  # not a mesh modification: the user replaces the values of his own variable
+            fd.nodal_data.overwrite('T', fd.nodal_data.get_attribute_data('T') * -2.0 + 1.0)
         else:   # connectivity assignment: swap two nodes of one element (keeps every referenced node)
             data = np.array(fd.elements.data).copy()
             j = r.randrange(len(data))
@@ -275,7 +279,7 @@ def run_history(ctx, hid, script=None):
     r = ctx.rng
     queries = query_table()
     kind = r.choice(['tet', 'tet', 'hex', 'prism'])
-    n_obj = r.choice([1, 1, 2, 3])
+    n_obj = r.choice([1, 1, 2, 3]) if script is None else 1 + max(op[1] for op in script)
     objs = []
     for i in range(n_obj):
         sib = objs[0]._verif_base if (i > 0 and r.random() < .6) else None
@@ -287,6 +291,7 @@ def run_history(ctx, hid, script=None):
     clear_caches()
     _TRACE['objs'] = {}
     versions = [0] * n_obj
+    asked = [[] for _ in range(n_obj)]
     modified = [False] * n_obj
     fam_opts = [dict() for _ in range(n_obj)]
     argids = {}
@@ -305,9 +310,15 @@ def run_history(ctx, hid, script=None):
             u = r.random()
             o = r.randrange(n_obj)
             if u < .74:
-                op = ('q', o, r.randrange(len(queries)))
+                # re-query bias: history dependence shows when a query is repeated after something else happened
+                if asked[o] and r.random() < .4:
+                    op = ('q', o, r.choice(asked[o]))
+                else:
+                    op = ('q', o, r.randrange(len(queries)))
+                asked[o].append(op[2])
             elif u < .9:
-                op = ('m', o, r.choice(['remove_useless_nodes', 'make_elements_positive', 'connectivity assignment']))
+                op = ('m', o, r.choice(['remove_useless_nodes', 'make_elements_positive', 'connectivity assignment',
+                                        'coordinate assignment', 'user variable overwrite']))
             else:
                 op = ('w', o, r.choice(['ucd', 'fistr']))
         kindop, o, arg = op
@@ -393,7 +404,7 @@ def run_history(ctx, hid, script=None):
             changed = before != after
             ctx.case((hid, step), sample={'op': 'modify', 'modifier': arg, 'object': o, 'changed_mesh': changed}, nontrivial=changed)
             ctx.count('modifier:' + arg + ('' if changed else '(no-op)'))
-            if changed:
+            if changed and arg != 'user variable overwrite':
                 versions[o] += 1
                 modified[o] = True
                 if model_on:
@@ -473,6 +484,16 @@ def run(ctx):
     ctx.extra['cached_methods'] = {n: _WRAPPED[n].cache_parameters()['maxsize'] for n in sorted(_WRAPPED)}
     for name, j in C.corpus_cases(PROP):
         ctx.count('corpus')
+    # systematic sandwiches: every query, then every kind of in-place change, then the same query again
+    nq = len(query_table())
+    mods = ['remove_useless_nodes', 'make_elements_positive', 'connectivity assignment', 'coordinate assignment',
+            'user variable overwrite']
+    k = 0
+    for qi in range(nq):
+        for mname in (mods if not ctx.quick else [mods[(qi + j) % len(mods)] for j in range(2)] + ['user variable overwrite']):
+            run_history(ctx, f's{k}', script=[('q', 0, qi), ('m', 0, mname), ('q', 0, qi)])
+            k += 1
+    ctx.extra['sandwich_histories'] = k
     for h in range(ctx.n(160, 1200)):
         run_history(ctx, h)
     clear_caches()
